@@ -1103,6 +1103,25 @@ func wgNamePairModels() []*gen.Model {
 					{Name: b, Rw: &gen.Rewrite{Kind: gen.This}, Restr: []gen.Restriction{{Type: "emp", Wild: true}, {Type: "doc", Rel: b}, {Type: "doc", Rel: a}}}}}}})
 		}
 	}
+	for _, p := range pairs {
+		for _, sw := range []bool{false, true} {
+			a, b := p[0], p[1]
+			if sw {
+				a, b = b, a
+			}
+			// relation a has no terminal type of its own: everything it reaches, it reaches through the cycles
+			out = append(out, &gen.Model{Schema: "1.1", Scaled: "name-pair-family", Types: []gen.TypeDef{{Name: "user"},
+				{Name: "doc", Rels: []gen.Relation{
+					{Name: a, Rw: &gen.Rewrite{Kind: gen.This}, Restr: []gen.Restriction{{Type: "doc", Rel: a}, {Type: "doc", Rel: b}}},
+					{Name: b, Rw: &gen.Rewrite{Kind: gen.This}, Restr: []gen.Restriction{{Type: "user"}, {Type: "doc", Rel: b}, {Type: "doc", Rel: a}}}}}}})
+			// two tuple-to-userset operands of one union whose target and tupleset relations are each other's
+			out = append(out, &gen.Model{Schema: "1.1", Scaled: "name-pair-family", Types: []gen.TypeDef{{Name: "user"},
+				{Name: "doc", Rels: []gen.Relation{
+					{Name: a, Rw: &gen.Rewrite{Kind: gen.This}, Restr: []gen.Restriction{{Type: "doc"}}},
+					{Name: b, Rw: &gen.Rewrite{Kind: gen.This}, Restr: []gen.Restriction{{Type: "doc"}}},
+					{Name: "mir", Rw: &gen.Rewrite{Kind: gen.Union, Kids: []*gen.Rewrite{{Kind: gen.This}, {Kind: gen.TTU, Rel: a, Tupleset: b}, {Kind: gen.TTU, Rel: b, Tupleset: a}}}, Restr: []gen.Restriction{{Type: "user"}}}}}}})
+		}
+	}
 	for _, n := range []int{65, 130, 257, 1030, 1500} {
 		td := gen.TypeDef{Name: "doc"}
 		for i := 0; i < n; i++ {
